@@ -5,7 +5,7 @@
    pool-level theorems (IterProofs2.v, PoolFrame.v) from C17_get_iterator_starts_over_the_current_view on:
    the snapshot clause ("enumerates the collection as it was when the iterator was obtained; several
    iterators do not influence each other") stated on the pool machine that the correspondence executes. *)
-From Verif Require Import Base Sorter Value Seq Coll Pool PoolFrame IterProofs IterProofs2.
+From Verif Require Import Base Sorter Value Seq Coll Pool PoolFrame IterProofs IterProofs2 ParamsFoot AliasFacts AliasProofs.
 Local Open Scope nat_scope.
 
 Theorem C17_slot_within_bounds :
@@ -212,6 +212,16 @@ Theorem C17_ops_not_addressing_an_object_leave_it :
 Proof. exact run_frame. Qed.
 
 
+(* with the static aliasing extraction as the premise (closed in AliasStatic.v, compiled by ./check C17): the array of
+   an iterator is never written after its constructor (publish-once) and every GetIterator of the library builds it
+   afresh - the code-side reading of "an iterator walks an immutable snapshot" - next to the model-side statement *)
+Theorem C17_static_iterator_snapshot :
+  alias_ok = true ->
+  (In iterator_values_field foot_publish_once /\
+   (forall r, In r foot_api -> ends_with get_iterator_suffix (api_fun r) = true -> api_is_result r = true -> api_clean r = true)) /\
+  (forall (A : Type) (zero : A) (i : iter A) (ms : list move), it_vals (walk A zero i ms) = it_vals i).
+Proof. exact alias_static_iterator_snapshot. Qed.
+
 Print Assumptions C17_slot_within_bounds.
 Print Assumptions C17_moves_never_change_the_snapshot.
 Print Assumptions C17_has_next_iff.
@@ -234,3 +244,4 @@ Print Assumptions C17_fresh_iterator_in_every_later_history.
 Print Assumptions C17_iterators_do_not_influence_each_other.
 Print Assumptions C17_iterator_moves_change_nothing_else.
 Print Assumptions C17_ops_not_addressing_an_object_leave_it.
+Print Assumptions C17_static_iterator_snapshot.
